@@ -357,6 +357,11 @@ var witnesses = []fw.Witness{
 		v.Set("twice", func(s string) string { return s + s }).Set("dbl", func(i int) int { return 2 * i })
 		return wout(wone(`{{range keys}}{{upper(.)}}{{twice(.)}}{{. | twice}}{{. + "x"}}{{end}}|{{range nums}}{{dbl(.)}}{{. + 1}}{{. * 2}}{{end}}|{{upper(pick())}}{{pick() | twice}}{{pick() + "x"}}|{{dbl(picki())}}{{picki() + 1}}`, v, nil), "ABabababababx|434|CDcdcdcdx|64")
 	}},
+	{Prop: "C06", Name: "call-on-index-or-call-expression-inside-an-expression", Run: func() string {
+		v := jet.VarMap{}
+		v.Set("m", data.Meth{V: "x"}).Set("mk", func() func() string { return func() string { return "inner" } })
+		return wout(wone(`{{ m["Val"]() }}|{{ "" + m["Val"]() }}|{{ m["Val"]()[0:3] }}|{{ m.Val()[0:3] }}|{{ "" + mk()() }}|{{ m["Arg"](2) == m.Arg(2) }}`, v, nil), "val:x|val:x|val|val|inner|true")
+	}},
 	{Prop: "C12", Name: "range-assign-form-with-underscore", Run: func() string {
 		v := jet.VarMap{}
 		v.Set("xs", []string{"a", "b"})
